@@ -5,7 +5,8 @@
      MS = ECMA-262 (10.4.5, 23.2, 25.1-25.3) written plainly;
      MI = goja's arithmetic as written in typedarrays.go / builtin_typedarrays.go / runtime.go
           (after the round-1 repairs: copyWithin clamp, set(array) through _putIdx, modular
-          integer conversions, BigInt64 raw sign, DataView/ArrayBuffer.slice detach checks).
+          integer conversions, BigInt64 raw sign, DataView/ArrayBuffer.slice detach checks; and the
+          round-3 repairs: fill converts the value first, [[Set]] always converts the value).
    The two share the skeleton of an operation (coercions in argument order, validation, byte
    access); every place where goja's code differs from the specification is an explicit
    [match m with MS => .. | MI => .. end].
@@ -170,7 +171,7 @@ Record touch := mkT { t_buf : nat; t_lo : Z; t_n : Z; t_live : bool }.
 Inductive err := TypeError | RangeError.
 Inductive res :=
 | RUndef | RElt (e : elt) | RErr (e : err) | RPanic
-| RNewView (len : Z) | RNewBuf (len : Z) | RLens (len bytelen byteoff : Z).
+| RNewView (len : Z) | RNewBuf (len : Z) | RLens (len bytelen byteoff : Z) | RBool (b : bool).
 
 Definition blen (b : buffer) : Z := Z.of_nat (length (b_bytes b)).
 Definition getb (st : state) (b : nat) : option buffer := nth_error (bufs st) b.
@@ -264,6 +265,9 @@ Definition put_raw (m : mode) (st : state) (vw : view) (idx : Z) (bs : list N) :
    but no integer index ("-0", "1.5", "NaN", "Infinity", "1e-7") *)
 Inductive key := KIdx (z : Z) | KNonInt.
 
+(* a search element: it is compared, never converted *)
+Inductive sval := SNum (bits : Z) | SBig (z : Z) | SUndef.
+
 Inductive op :=
 | OCtor (k : kind) (b : nat) (off len : option iarg)          (* new T(B[b], off, len) *)
 | ODvCtor (b : nat) (off len : option iarg)                   (* new DataView(B[b], off, len) *)
@@ -282,7 +286,10 @@ Inductive op :=
 | OBufSlice (b : nat) (s e : option iarg)
 | OGoWrite (b : nat) (i : Z) (x : N)                          (* the Go owner writes its slice *)
 | ODetach (b : nat)                                           (* ArrayBuffer.Detach() from Go *)
-| OLens (v : nat).                                            (* length, byteLength, byteOffset *)
+| OLens (v : nat)                                             (* length, byteLength, byteOffset *)
+| OIncludes (v : nat) (x : sval) (from : option iarg)         (* V[v].includes(x, from) *)
+| OIndexOf (v : nat) (x : sval) (from : option iarg)
+| OLastIndexOf (v : nat) (x : sval) (from : option iarg).
 
 Definition out := (state * res * list touch)%type.
 Definition fail (st : state) (e : err) (t : list touch) : out := (st, RErr e, t).
@@ -355,22 +362,13 @@ Definition op_get (m : mode) (st : state) (v : nat) (k : key) : out :=
         else (st, RUndef, [])
     end).
 
-(* --- V[v][key] = a   (TypedArraySetElement: convert, then test the index, then store).
-   goja: a key that strToIntNum does not return as an int (a non-integer canonical numeric string, or
-   an integer beyond +-2^53) only gets toNumeric(value): the value's valueOf runs, but a value of the
-   wrong type (Number for a BigInt array or the reverse) raises no TypeError (open finding C17-N9) *)
-Definition key_converts (m : mode) (k : key) : bool :=
-  match m, k with
-  | MS, _ => true
-  | MI, KIdx z => Z.abs z <=? 2 ^ 53
-  | MI, KNonInt => false
-  end.
-
+(* --- V[v][key] = a   (TypedArraySetElement: convert -- also for a numeric key that is no integer
+       index --, then test the index, then store) *)
 Definition op_set (m : mode) (st : state) (v : nat) (k : key) (a : varg) : out :=
   with_view st v (fun vw =>
     let '(st1, p) := co_val st a in
     match num_to_raw m (v_kind vw) true p with
-    | None => if key_converts m k then fail st1 TypeError [] else (st1, RUndef, [])
+    | None => fail st1 TypeError []
     | Some bs =>
         match k with
         | KNonInt => (st1, RUndef, [])
@@ -507,31 +505,18 @@ Definition fill_tail (m : mode) (st : state) (vw : view) (bs : list N) (rs re : 
      [tch st (v_buf vw) (addr m vw k) ((final - k) * esize (v_kind vw))])
   else (st, RUndef, []).
 
-(* spec order of the coercions: value, start, end; goja: start, end, value (open finding C17-N8).
-   The order is visible in the model when the value is of the wrong type: the TypeError comes
-   before (spec) or after (goja) the effects of start/end *)
+(* order of the coercions: value, start, end *)
 Definition op_fill (m : mode) (st : state) (v : nat) (a : varg) (s e : option iarg) : out :=
   with_view st v (fun vw =>
     if is_det st (v_buf vw) then fail st TypeError [] else
     let l := v_len vw in
-    match m with
-    | MS =>
-        let '(s1, p) := co_val st a in
-        match num_to_raw MS (v_kind vw) true p with
-        | None => fail s1 TypeError []
-        | Some bs =>
-            let '(s2, rs) := co_opt s1 s 0 in
-            let '(s3, re) := co_opt s2 e l in
-            fill_tail MS s3 vw bs rs re
-        end
-    | MI =>
-        let '(s1, rs) := co_opt st s 0 in
-        let '(s2, re) := co_opt s1 e l in
-        let '(s3, p) := co_val s2 a in
-        match num_to_raw MI (v_kind vw) true p with
-        | None => fail s3 TypeError []
-        | Some bs => fill_tail MI s3 vw bs rs re
-        end
+    let '(s1, p) := co_val st a in
+    match num_to_raw m (v_kind vw) true p with
+    | None => fail s1 TypeError []
+    | Some bs =>
+        let '(s2, rs) := co_opt s1 s 0 in
+        let '(s3, re) := co_opt s2 e l in
+        fill_tail m s3 vw bs rs re
     end).
 
 (* --- V[v].slice(start, end)  (default species: a new array on a new buffer) *)
@@ -675,6 +660,60 @@ Definition op_bufslice (st : state) (b : nat) (s e : option iarg) : out :=
   (mkSt (bufs st2 ++ [mkBuf bs false]) (views st2) (dviews st2), RNewBuf n,
    if n >? 0 then [tch st2 b first n; mkT nb 0 n true] else []).
 
+(* --- V[v].includes / indexOf / lastIndexOf: read-only scans.  The search element is compared with
+       the element values (SameValueZero for includes, strict equality for the other two); only
+       fromIndex is converted.  After a detach during that conversion the elements read as undefined. *)
+Definition elt_float (e : elt) : option spec_float :=
+  match e with EInt z => Some (of_Z z) | EFlt f => Some f | EBig _ => None end.
+Definition strict_eq (x : sval) (e : elt) : bool :=
+  match x, e with
+  | SNum b, EBig _ => false
+  | SNum b, _ => match elt_float e with Some f => feqb (of_bits b) f | None => false end
+  | SBig a, EBig z => a =? z
+  | _, _ => false
+  end.
+Definition svz_eq (x : sval) (e : elt) : bool :=
+  match x, e with
+  | SNum b, EFlt f => (is_nan (of_bits b) && is_nan f) || feqb (of_bits b) f
+  | _, _ => strict_eq x e
+  end.
+Fixpoint find_idx (p : Z -> bool) (l : list Z) : option Z :=
+  match l with [] => None | i :: r => if p i then Some i else find_idx p r end.
+Definition scan (m : mode) (st : state) (vw : view) (eq : sval -> elt -> bool) (x : sval) (idxs : list Z) : option Z :=
+  find_idx (fun i => eq x (fst (get_elt m st vw i))) idxs.
+Definition is_undef (x : sval) : bool := match x with SUndef => true | _ => false end.
+Definition ridx (z : Z) : res := RElt (EInt z).
+
+Definition op_search_fwd (incl : bool) (m : mode) (st : state) (v : nat) (x : sval) (from : option iarg) : out :=
+  with_view st v (fun vw =>
+    let none := if incl then RBool false else ridx (-1) in
+    if is_det st (v_buf vw) then fail st TypeError [] else
+    let l := v_len vw in
+    if l =? 0 then (st, none, []) else
+    let '(st1, n) := co_opt st from 0 in
+    if n >=? l then (st1, none, []) else
+    let k := if n <? 0 then Z.max (l + n) 0 else n in
+    if is_det st1 (v_buf vw) then (st1, if incl then RBool (is_undef x) else none, []) else
+    match scan m st1 vw (if incl then svz_eq else strict_eq) x (seqZ k (Z.to_nat (l - k))) with
+    | Some i => (st1, if incl then RBool true else ridx i,
+                 [tch st1 (v_buf vw) (addr m vw k) ((i + 1 - k) * esize (v_kind vw))])
+    | None => (st1, none, [tch st1 (v_buf vw) (addr m vw k) ((l - k) * esize (v_kind vw))])
+    end).
+
+Definition op_lastindexof (m : mode) (st : state) (v : nat) (x : sval) (from : option iarg) : out :=
+  with_view st v (fun vw =>
+    if is_det st (v_buf vw) then fail st TypeError [] else
+    let l := v_len vw in
+    if l =? 0 then (st, ridx (-1), []) else
+    let '(st1, n) := co_opt st from (l - 1) in
+    let k := if 0 <=? n then Z.min n (l - 1) else l + n in
+    if k <? 0 then (st1, ridx (-1), []) else
+    if is_det st1 (v_buf vw) then (st1, ridx (-1), []) else
+    match scan m st1 vw strict_eq x (rev (seqZ 0 (Z.to_nat (k + 1)))) with
+    | Some i => (st1, ridx i, [tch st1 (v_buf vw) (addr m vw i) ((k + 1 - i) * esize (v_kind vw))])
+    | None => (st1, ridx (-1), [tch st1 (v_buf vw) (addr m vw 0) ((k + 1) * esize (v_kind vw))])
+    end).
+
 Definition op_lens (st : state) (v : nat) : out :=
   with_view st v (fun vw =>
     if is_det st (v_buf vw) then (st, RLens 0 0 0, [])
@@ -700,6 +739,9 @@ Definition step (m : mode) (st : state) (o : op) : out :=
   | OGoWrite b i x => (wr_buf st b i [x], RUndef, [])
   | ODetach b => (detach st b, RUndef, [])
   | OLens v => op_lens st v
+  | OIncludes v x from => op_search_fwd true m st v x from
+  | OIndexOf v x from => op_search_fwd false m st v x from
+  | OLastIndexOf v x from => op_lastindexof m st v x from
   end.
 
 (* the byte regions an operation is entitled to touch, as (buffer, lo, hi):
@@ -724,7 +766,7 @@ Definition new_region (st : state) (v : nat) : list (nat * Z * Z) :=
 Definition allowed (st : state) (o : op) : list (nat * Z * Z) :=
   match o with
   | OGet v _ | OSet v _ _ | OSetArr v _ _ | OCopyWithin v _ _ _ | OFill v _ _ _ | OReverse v | OSort v
-  | OLens v | OSubarray v _ _ => view_region st v
+  | OLens v | OSubarray v _ _ | OIncludes v _ _ | OIndexOf v _ _ | OLastIndexOf v _ _ => view_region st v
   | OSetTyped v sv _ => view_region st v ++ view_region st sv
   | OSlice v _ _ => view_region st v ++ new_region st v
   | ODvGet d _ _ _ | ODvSet d _ _ _ _ => dview_region st d
